@@ -125,7 +125,10 @@ func parseParams(value string, eval bool, options buildOpts) (
 		}
 
 		strParam := stringifyParam(p)
-		ret = append(ret, strParam)
+		// The parameter list is recorded with the run and parsed again by
+		// retry and restart, so it keeps the quoting that reads back the
+		// same values.
+		ret = append(ret, quoteParam(p))
 
 		if p.name == "" {
 			strParam = p.value
@@ -153,6 +156,20 @@ func stringifyParam(param paramPair) string {
 		return fmt.Sprintf("%s=%s", param.name, param.value)
 	}
 	return param.value
+}
+
+// quoteParam converts a paramPair to the syntax parseParamValue reads back:
+// a value is quoted when it would otherwise be split or taken for a name.
+func quoteParam(param paramPair) string {
+	value := param.value
+	if value == "" || strings.ContainsAny(value, " \t\r\n\"") ||
+		(param.name == "" && strings.Contains(value, "=")) {
+		value = `"` + strings.ReplaceAll(value, `"`, `\"`) + `"`
+	}
+	if param.name != "" {
+		return fmt.Sprintf("%s=%s", param.name, value)
+	}
+	return value
 }
 
 // paramPair represents a key-value pair for the parameters.
